@@ -179,4 +179,66 @@ theorem shapeOk_tyOf (T : Table) (o : Bool) (f : InField) (v : GValue) :
   · simp only [tyOf, if_true]
     exact shapeOk_congr T _ _ v (stripOpt_gql f.ty).1 (by rw [gql_base, gql_base, (stripOpt_gql f.ty).2])
 
+-- ------------------------------------------------------------------ declared keys (the repaired generated `parse`)
+
+mutual
+/-- a well-shaped value carries declared keys only -/
+theorem shapeOk_declaredOk (T : Table) : ∀ (v : GValue) (ty : TypeRef),
+    shapeOk T ty v = true → declaredOk T ty v = true
+  | .null, _, _ => by simp [declaredOk]
+  | .int _, _, _ => by simp [declaredOk]
+  | .float _, _, _ => by simp [declaredOk]
+  | .str _, _, _ => by simp [declaredOk]
+  | .bool _, _, _ => by simp [declaredOk]
+  | .enum _, _, _ => by simp [declaredOk]
+  | .list xs, ty, h => by
+    simp only [shapeOk] at h
+    simp only [declaredOk]
+    split
+    · rename_i t ht
+      simp only [ht] at h
+      exact shapeOkList_declaredOk T xs t h
+    · rfl
+  | .obj fs, ty, h => by
+    simp only [shapeOk] at h
+    simp only [declaredOk]
+    split
+    · rename_i o fields hf
+      simp only [hf, Bool.and_eq_true] at h
+      exact shapeOkEntries_declaredOk T fs fields h.2
+    · rfl
+theorem shapeOkList_declaredOk (T : Table) : ∀ (xs : List GValue) (t : TypeRef),
+    shapeOkList T t xs = true → declaredOkList T t xs = true
+  | [], _, _ => by simp [declaredOkList]
+  | x :: xs, t, h => by
+    simp only [shapeOkList, Bool.and_eq_true] at h
+    simp only [declaredOkList, Bool.and_eq_true]
+    exact ⟨shapeOk_declaredOk T x t h.1, shapeOkList_declaredOk T xs t h.2⟩
+theorem shapeOkEntries_declaredOk (T : Table) : ∀ (fs : List (String × GValue)) (fields : List InField),
+    shapeOkEntries T fields fs = true → declaredOkEntries T fields fs = true
+  | [], _, _ => by simp [declaredOkEntries]
+  | (k, v) :: rest, fields, h => by
+    simp only [shapeOkEntries, Bool.and_eq_true] at h
+    simp only [declaredOkEntries, Bool.and_eq_true]
+    refine ⟨?_, shapeOkEntries_declaredOk T rest fields h.2⟩
+    cases hf : fields.find? (·.name = k) with
+    | none => simp [hf] at h
+    | some f =>
+      simp only [hf] at h
+      exact shapeOk_declaredOk T v f.ty.gql h.1
+end
+
+/-- on a well-shaped value the repaired `parse` (which refuses undeclared keys) is `parseD` -/
+theorem parseK_of_shapeOk (D : Defects) (T : Table) (rty : RTy) (v : GValue)
+    (h : shapeOk T rty.gql v = true) : parseK D T rty v = parseD D T rty v := by
+  simp [parseK, shapeOk_declaredOk T v rty.gql h]
+
+/-- with the toggle on, `parseK` is `parseD` -/
+theorem parseK_pinned (D : Defects) (T : Table) (rty : RTy) (v : GValue)
+    (h : D.undeclaredKeysIgnored = true) : parseK D T rty v = parseD D T rty v := by
+  simp [parseK, h]
+
+theorem parseK_null (D : Defects) (T : Table) (rty : RTy) : parseK D T rty .null = parseD D T rty .null := by
+  simp [parseK, declaredOk]
+
 end AGV.Lemmas.Coerce
